@@ -165,14 +165,25 @@ func scenC12(r *Run) {
 	}
 }
 
+var bigRespPtr *bool
+
 func c12Benign(r *Run, sim *verifsim.Sim, st *c12state, sub, maxLen int) {
 	service := core.NewService()
 	service.Use(st.echoHandler)
 	fx := NewFixture(r, st.kind, service)
 	client := fx.NewClient()
 	client.Timeout = time.Hour
+	small := st.respLen
+	st.respLen = func() int {
+		if bigRespPtr != nil && *bigRespPtr && st.nextResp == 1 {
+			return 1<<24 + 77
+		}
+		return small()
+	}
 	nreq := 1 + r.Plan(4)
 	per := 1 + r.Plan(3)
+	bigResp := false
+	bigRespPtr = &bigResp
 	type rq struct {
 		id        int
 		req, resp []byte
@@ -188,6 +199,11 @@ func c12Benign(r *Run, sim *verifsim.Sim, st *c12state, sub, maxLen int) {
 			n := c12Lengths[(id*5+r.Plan(len(c12Lengths)))%len(c12Lengths)]
 			if n > maxLen {
 				n = maxLen - (id % 3)
+			}
+			if st.kind == "socket" && i == 0 && j == 0 && sub%6 == 0 {
+				// the length field is 31 bits wide: cross the 2^16 and 2^24 byte boundaries too
+				n = []int{1<<24 - 1, 1 << 24, 1<<24 + 5, 1<<24 + 1<<23 + 123}[(sub/6)%4]
+				bigResp = true
 			}
 			q := &rq{id: id, req: payload(id, n)}
 			mine = append(mine, q)
@@ -290,9 +306,18 @@ func c12ServerSide(r *Run, sim *verifsim.Sim, st *c12state, sub int) {
 	case "len-srv":
 		if kind == "socket" {
 			decl := []int{bodyLen + 1, 2 * bodyLen, 0x7fffffff, bodyLen + 12}[sub%4]
-			f := append(sockHeader(decl, uint32(5+sub)), body...)
+			carried := body
+			// half of the cases: nothing at all follows the header (close right after it, or inside it)
+			switch (sub / 4) % 4 {
+			case 1:
+				carried = nil
+				decl = []int{1, 11, 12, 255, 256, 4096, 65536}[(sub/16)%7]
+			case 3:
+				carried = body[:1]
+			}
+			f := append(sockHeader(decl, uint32(5+sub)), carried...)
 			frames = [][]byte{f}
-			desc = fmt.Sprintf("socket frame declares %d bytes, carries %d, then the peer closes", decl, bodyLen)
+			desc = fmt.Sprintf("socket frame declares %d bytes, carries %d, then the peer closes", decl, len(carried))
 		} else {
 			decl := []int{0, bodyLen - 1, bodyLen + 1, 2 * bodyLen, 65499, 65535}[sub%6]
 			if decl < 0 {
@@ -419,8 +444,16 @@ func c12ClientSide(r *Run, sim *verifsim.Sim, st *c12state, sub int) {
 		desc = fmt.Sprintf("udp response header bit %d flipped", bit)
 	case kind == "socket":
 		decl := []int{bodyLen + 1, 2 * bodyLen, 0x7fffffff, bodyLen + 12}[sub%4]
-		bad = func(index uint32) []byte { return append(sockHeader(decl, index), good...) }
-		desc = fmt.Sprintf("socket response declares %d bytes, carries %d, then the peer closes", decl, bodyLen)
+		carried := good
+		switch (sub / 4) % 4 {
+		case 1:
+			carried = nil
+			decl = []int{1, 11, 12, 255, 256, 4096, 65536}[(sub/16)%7]
+		case 3:
+			carried = good[:1]
+		}
+		bad = func(index uint32) []byte { return append(sockHeader(decl, index), carried...) }
+		desc = fmt.Sprintf("socket response declares %d bytes, carries %d, then the peer closes", decl, len(carried))
 	default:
 		decl := []int{0, bodyLen - 1, bodyLen + 1, 2 * bodyLen, 65499, 65535}[sub%6]
 		if decl < 0 {
